@@ -97,6 +97,27 @@ pub struct Model {
     /// with another file, then edited) — attached whether or not a SAUCE trailer is written
     #[serde(default)]
     pub rec: Option<Rec>,
+    /// NAME of each model font, independent of its glyphs (`font_name` codes; empty or 0 = the natural name:
+    /// the built-in font's own name, "icyv custom N" for generated glyphs)
+    #[serde(default)]
+    pub names: Vec<u8>,
+}
+
+pub const NAME_CODES: u8 = 23;
+
+/// 1..=16 the SAUCE font names, 17..=19 names of built-in font pages, 20 the default font's name,
+/// 21 "custom font 1", 22 empty, 23 thirty characters
+pub fn font_name(code: u8) -> String {
+    match code {
+        1..=16 => icy_engine::SAUCE_FONT_NAMES[(code as usize - 1) % icy_engine::SAUCE_FONT_NAMES.len()].to_string(),
+        17 => BitFont::from_ansi_font_page(1).map(|f| f.name).unwrap_or_default(),
+        18 => BitFont::from_ansi_font_page(5).map(|f| f.name).unwrap_or_default(),
+        19 => BitFont::from_ansi_font_page(42).map(|f| f.name).unwrap_or_default(),
+        20 => BitFont::default().name,
+        21 => "custom font 1".to_string(),
+        22 => String::new(),
+        _ => "A thirty characters long name!".to_string(),
+    }
 }
 
 #[derive(Clone, Debug, Hash, PartialEq, Eq, Serialize, Deserialize)]
@@ -302,6 +323,9 @@ impl Model {
                 return bad("record fields");
             }
         }
+        if (!self.names.is_empty() && self.names.len() != self.fonts.len()) || self.names.iter().any(|n| *n > NAME_CODES) {
+            return bad("font names");
+        }
         let two = self.fonts.len() == 2;
         for (_, c) in &self.runs {
             let ncol = if self.fmt == Fmt::Tnd { self.palette.len() as u8 } else { 16 };
@@ -337,10 +361,14 @@ impl Model {
 }
 
 pub fn make_font(m: &Model, page: usize) -> BitFont {
-    match m.fonts[page] {
+    let mut f = match m.fonts[page] {
         FontM::Default => BitFont::default(),
         FontM::Custom(_) => BitFont::create_8(format!("icyv custom {page}"), 8, m.font_h, &m.font_data(page)),
+    };
+    if let Some(code) = m.names.get(page).filter(|c| **c != 0) {
+        f.name = font_name(*code);
     }
+    f
 }
 
 pub fn attr_of(m: &Model, c: &Cell) -> TextAttribute {
@@ -365,7 +393,7 @@ pub fn build(m: &Model, cells: &[Cell]) -> Buffer {
         let cols: Vec<Color> = m.palette8().iter().map(|c| Color::new(c[0], c[1], c[2])).collect();
         buf.palette = Palette::from_slice(&cols);
     }
-    if m.fonts != [FontM::Default] || !m.slots.is_empty() || !m.extra_fonts.is_empty() {
+    if m.fonts != [FontM::Default] || !m.slots.is_empty() || !m.extra_fonts.is_empty() || m.names.iter().any(|n| *n != 0) {
         buf.clear_font_table();
         // slot 0 always holds a font (Buffer::new puts the built-in one there; writers read its name and size)
         buf.set_font(0, BitFont::default());
@@ -536,8 +564,17 @@ fn with_extras(base: BoxedStrategy<Model>, shapes: bool) -> BoxedStrategy<Model>
         1 => (any::<bool>(), any::<bool>(), any::<bool>(), 0u8..=4, prop_oneof![Just(0u16), Just(80u16), 1u16..=300], prop_oneof![Just(0u16), Just(25u16), 1u16..=300], 0u8..=5)
             .prop_map(|(use_ice, letter_spacing, aspect_ratio, font, w, h, kind)| Some(Rec { use_ice, letter_spacing, aspect_ratio, font, w, h, kind })),
     ];
-    (base, meta, shape, slots, extra, rec)
-        .prop_map(|(mut m, meta, shape, slots, extra, rec)| {
+    // font NAMES, independent of the glyphs: SAUCE font names, built-in page names, the default font's name, ...
+    let name = || prop_oneof![5 => Just(0u8), 4 => 1u8..=16, 1 => 17u8..=19, 1 => Just(20u8), 1 => Just(21u8), 1 => Just(22u8), 1 => Just(23u8)];
+    let names = (name(), name());
+    (base, meta, shape, slots, extra, rec, names)
+        .prop_map(|(mut m, meta, shape, slots, extra, rec, names)| {
+            if names != (0, 0) {
+                m.names = [names.0, names.1][..m.fonts.len()].to_vec();
+                if m.names.iter().all(|n| *n == 0) {
+                    m.names.clear();
+                }
+            }
             m.sauce_meta = if m.sauce { meta } else { 0 };
             m.shape = shape;
             if let Some((a, b)) = slots {
@@ -582,7 +619,7 @@ fn xb_inner(small: bool) -> BoxedStrategy<Model> {
     let fonts = prop_oneof![3 => font1().prop_map(|f| vec![f]), 2 => (font1(), any::<u16>()).prop_map(|(a, s)| vec![a, FontM::Custom(s)])];
     (size, any::<bool>(), pal6(), font_h, fonts, raw_runs(if small { 40 } else { 120 }), any::<bool>(), any::<bool>())
         .prop_map(|((w, h), ice, palette, font_h, fonts, runs, compress, sauce)| {
-            finish(Model { fmt: Fmt::Xb, w, h, ice, palette, font_h, fonts, runs, compress, sauce, steered: false, sauce_meta: 0, shape: 0, slots: Vec::new(), extra_fonts: Vec::new(), rec: None }, false)
+            finish(Model { fmt: Fmt::Xb, w, h, ice, palette, font_h, fonts, runs, compress, sauce, steered: false, sauce_meta: 0, shape: 0, slots: Vec::new(), extra_fonts: Vec::new(), rec: None, names: Vec::new() }, false)
         })
         .boxed()
 }
@@ -601,7 +638,7 @@ fn bin_inner(small: bool) -> BoxedStrategy<Model> {
     (width, height, any::<bool>(), raw_runs(if small { 40 } else { 120 }))
         .prop_map(|(w, h, ice, runs)| {
             finish(
-                Model { fmt: Fmt::Bin, w, h, ice, palette: DEFPAL6.to_vec(), font_h: 16, fonts: vec![FontM::Default], runs, compress: false, sauce: true, steered: false, sauce_meta: 0, shape: 0, slots: Vec::new(), extra_fonts: Vec::new(), rec: None },
+                Model { fmt: Fmt::Bin, w, h, ice, palette: DEFPAL6.to_vec(), font_h: 16, fonts: vec![FontM::Default], runs, compress: false, sauce: true, steered: false, sauce_meta: 0, shape: 0, slots: Vec::new(), extra_fonts: Vec::new(), rec: None, names: Vec::new() },
                 false,
             )
         })
@@ -616,7 +653,7 @@ fn adf_inner(small: bool) -> BoxedStrategy<Model> {
     let height = if small { (1u16..=30).boxed() } else { heights() };
     (height, pal6(), font1(), raw_runs(if small { 40 } else { 120 }), any::<bool>())
         .prop_map(|(h, palette, font, runs, sauce)| {
-            finish(Model { fmt: Fmt::Adf, w: 80, h, ice: true, palette, font_h: 16, fonts: vec![font], runs, compress: false, sauce, steered: false, sauce_meta: 0, shape: 0, slots: Vec::new(), extra_fonts: Vec::new(), rec: None }, false)
+            finish(Model { fmt: Fmt::Adf, w: 80, h, ice: true, palette, font_h: 16, fonts: vec![font], runs, compress: false, sauce, steered: false, sauce_meta: 0, shape: 0, slots: Vec::new(), extra_fonts: Vec::new(), rec: None, names: Vec::new() }, false)
         })
         .boxed()
 }
@@ -640,7 +677,7 @@ fn idf_inner(small: bool) -> BoxedStrategy<Model> {
     (width, height, pal6(), font1(), runs, any::<bool>(), any::<bool>())
         .prop_map(|(w, h, palette, font, runs, compress, sauce)| {
             // `finish` rescales colours 0..32 -> 0..16; the inserted marker cells are already final (0 stays 0)
-            finish(Model { fmt: Fmt::Idf, w, h, ice: true, palette, font_h: 16, fonts: vec![font], runs, compress, sauce, steered: false, sauce_meta: 0, shape: 0, slots: Vec::new(), extra_fonts: Vec::new(), rec: None }, false)
+            finish(Model { fmt: Fmt::Idf, w, h, ice: true, palette, font_h: 16, fonts: vec![font], runs, compress, sauce, steered: false, sauce_meta: 0, shape: 0, slots: Vec::new(), extra_fonts: Vec::new(), rec: None, names: Vec::new() }, false)
         })
         .boxed()
 }
@@ -665,7 +702,7 @@ fn tnd_inner(small: bool, st: Steer) -> BoxedStrategy<Model> {
     // characters 1..=6 collide with Tundra's command bytes; two thirds of the cases stay clear of them anyway
     (size, pal24(), raw_runs(if small { 40 } else { 120 }), 0u8..3)
         .prop_map(move |((w, h), palette, runs, ctl)| {
-            let raw = Model { fmt: Fmt::Tnd, w, h, ice: true, palette, font_h: 16, fonts: vec![FontM::Default], runs, compress: false, sauce: true, steered: false, sauce_meta: 0, shape: 0, slots: Vec::new(), extra_fonts: Vec::new(), rec: None };
+            let raw = Model { fmt: Fmt::Tnd, w, h, ice: true, palette, font_h: 16, fonts: vec![FontM::Default], runs, compress: false, sauce: true, steered: false, sauce_meta: 0, shape: 0, slots: Vec::new(), extra_fonts: Vec::new(), rec: None, names: Vec::new() };
             let mut steered = false;
             let mut avoid_ctrl = ctl != 0;
             if st.tnd_ctrl && !avoid_ctrl {
@@ -728,6 +765,7 @@ pub fn simpler(m: &Model) -> Vec<Model> {
         let mut c = m.clone();
         c.fonts.truncate(1);
         c.slots.truncate(1);
+        c.names.truncate(1);
         for r in &mut c.runs {
             r.1.page = 0;
         }
@@ -766,6 +804,16 @@ pub fn simpler(m: &Model) -> Vec<Model> {
     }
     if !m.extra_fonts.is_empty() {
         push(Model { extra_fonts: Vec::new(), ..m.clone() });
+    }
+    if !m.names.is_empty() {
+        push(Model { names: Vec::new(), ..m.clone() });
+        for i in 0..m.names.len() {
+            if m.names[i] != 0 {
+                let mut n = m.names.clone();
+                n[i] = 0;
+                push(Model { names: n, ..m.clone() });
+            }
+        }
     }
     if !m.slots.is_empty() {
         push(Model { slots: Vec::new(), ..m.clone() });
